@@ -1,14 +1,20 @@
 """C02 — guest memory accesses never leave the linear memory."""
-import json
+import json, threading, time
+from concurrent.futures import ThreadPoolExecutor
 from vcheck import *
 from wcommon import *
+import c02_amode, c02_elide
 
 
 def run(tier, seed):
     ck = Check("C02", tier, seed)
-    ck.trusted += ["tools/go2coq (hasSize); hand models of memOpSetup's check, popMemoryOffset, lowerToAddressMode (Engine/Bounds.v, Engine/Amode.v)",
-                   "coq/Wasm/Sem.v as the oracle of every access; harness/c02, checks/c02.py"]
-    ck.assumptions += ["instruction selection/encoding after address-mode lowering and the known-safe-bound dataflow across block joins are exercised, not modelled",
+    ck.trusted += ["tools/go2coq (hasSize); hand models of memOpSetup's check, popMemoryOffset (Engine/Bounds.v), of lowerToAddressMode (Engine/Amode.v) and of the known-safe-bounds cache "
+                   "(Engine/Elide.v) — the last two compared with the real functions on every run through overlay wrappers (harness/c02/x_*_export.go)",
+                   "the x86 meaning of an addressing mode (base + index*2^shift + sign-extended disp32) and of the three instructions lowerToAddressMode inserts (mov imm, xor-zero, shl imm)",
+                   "the overlay's copy of LowerToSSA/lowerBody that steps the real frontend (its SSA output is compared with LowerToSSA's on every function)",
+                   "coq/Wasm/Sem.v as the oracle of every access of the end-to-end run; harness/c02, checks/c02*.py"]
+    ck.assumptions += ["instruction selection/encoding after address-mode lowering, register allocation and native code are exercised end to end, not modelled",
+                       "Engine/Elide.v's execution semantics: the memory never shrinks and moves only at calls and memory.grow; a block's own SSA values change only when the block is entered",
                        "arm64 is out of scope on this machine; atomics/SIMD/bulk-memory accesses are not generated",
                        "final memory contents above the first 64 MiB are observed through the programs' own loads, not dumped"]
     proofs_ok = ck.proofs()
@@ -17,13 +23,34 @@ def run(tier, seed):
     if not binp:
         ck.violation("harness-build", {"kind": "build"}, {"log": log[-3000:]}, no_input=True)
         return ck.finish()
+    shown = set()
+    lock = threading.Lock()
+    def viol(kind, sig, detail, **kw):
+        with lock:
+            if kind in shown: return
+            shown.add(kind); ck.violation(kind, sig, detail, **kw)
+    # the two direct streams run beside the end-to-end harness
+    pool = ThreadPoolExecutor(2)
+    t0 = time.time()
+    def stream(mod, name):
+        try:
+            return mod.run(ck, binp, seed, tier, viol)
+        except Exception as e:   # a bug of the check itself must not look like a pass
+            import traceback
+            viol(name + "-stream-error", {"kind": "stream-error", "stream": name}, {"err": repr(e), "trace": traceback.format_exc()[-3000:]}, no_input=True)
+            return 0, 0, {}, []
+    fut_a = pool.submit(stream, c02_amode, "amode")
+    fut_e = pool.submit(stream, c02_elide, "elide")
     rc, out = sh([binp, "-seed", str(seed), "-n", str(n), "-big", str(big)], timeout=2400)
     cases = [json.loads(l) for l in out.split("\n") if l.startswith("{")]
+    na, da, dist_a, samp_a = fut_a.result()
+    ne, de, dist_e, samp_e = fut_e.result()
+    ck.note("streams: amode %d cases, elide %d functions, end-to-end %d programs (harness phase %.1fs)" % (na, ne, len(cases), time.time() - t0))
     if rc != 0 or not cases:
         ck.violation("process-fault", {"kind": "process-fault"}, {"rc": rc, "tail": out[-3000:]})
         return ck.finish()
-    ck.cases = len(cases) * 2
-    dist = {"calls": 0, "outcomes": {}, "memories_above_2GiB": 0, "model_out_of_fuel": 0}
+    ck.cases = len(cases) * 2 + na + ne
+    dist = {"direct_amode": dist_a, "direct_elide": dist_e, "calls": 0, "outcomes": {}, "memories_above_2GiB": 0, "model_out_of_fuel": 0}
     for c in cases:
         if c["pages"] > 32768: dist["memories_above_2GiB"] += 1
         for o in (c["engines"]["compiler"].get("obs") or []):
@@ -31,14 +58,15 @@ def run(tier, seed):
             k = o.get("trap") or "values"
             dist["outcomes"][k] = dist["outcomes"].get(k, 0) + 1
     ck.dist = dist
-    ck.distinct = len(set(c["wasm"] for c in cases))
-    ck.samples = [dict(pages=c["pages"], calls=c["calls"][:4], compiler=(c["engines"]["compiler"].get("obs") or [])[:4]) for c in cases[:3]]
+    ck.distinct = len(set(c["wasm"] for c in cases)) + da + de
+    ck.samples = [dict(pages=c["pages"], calls=c["calls"][:4], compiler=(c["engines"]["compiler"].get("obs") or [])[:4]) for c in cases[:3]] + samp_a + samp_e
     ck.extra["rule"] = ("functions with 2-5 loads/stores of every width (bases: parameter reused, derived, constants incl. >= 2^31; static offsets over the whole 32-bit range) "
-                        "placed around calls, memory.grow, if/block/loop boundaries; memories of 1-3 pages and just above 2 GiB / just under 4 GiB; both engines vs W; distinct by module bytes")
-    shown = set()
-    def viol(kind, sig, detail, **kw):
-        if kind in shown: return
-        shown.add(kind); ck.violation(kind, sig, detail, **kw)
+                        "placed around calls, memory.grow, if/block/loop boundaries; memories of 1-3 pages and just above 2 GiB / just under 4 GiB; both engines vs W; distinct by module bytes. "
+                        "Direct stream A: SSA trees (the frontend's shapes enumerated x all interesting offsets, then random trees over the whole of Amode.v's e64 incl. constants/offsets >= 2^31, "
+                        "shifts 0..65, single/multi-use) handed to the real lowerToAddressMode; its result is read under 3 register valuations and compared part by part with Amode.v (in Coq) "
+                        "and with value+offset (Python). Direct stream B: generated functions (loops, ifs, br/br_if/br_table, calls, memory.grow, few base values) lowered by the real frontend "
+                        "stepped opcode by opcode; the real cache at every block boundary/event and every decision of memOpSetup are compared with Elide.v (in Coq, which also evaluates wf_cfg on "
+                        "the real graph) and every access of the emitted SSA is checked by a must-dataflow over the final graph (Python)")
     for c in cases:
         why = engines_agree(c)
         if why:
